@@ -3,6 +3,7 @@ package main
 // Loop cutting with invariants, write-set regions and frame conditions.
 
 import (
+	"os"
 	"strings"
 	"fmt"
 	"go/ast"
@@ -34,6 +35,21 @@ func (li *loopInfo) rangeIndexAlloc() *ssa.Alloc {
 		if s, ok := in.(*ssa.Store); ok {
 			if a, ok := s.Addr.(*ssa.Alloc); ok && a.Comment == "rangeindex" {
 				return a
+			}
+		}
+	}
+	return nil
+}
+
+// mapRange returns the range instruction of a "for ... range m" loop over a
+// map (its Next is in the loop header), nil for other loops.
+func (li *loopInfo) mapRange() *ssa.Range {
+	for _, in := range li.header.Instrs {
+		if n, ok := in.(*ssa.Next); ok && !n.IsString {
+			if r, ok := n.Iter.(*ssa.Range); ok {
+				if _, isMap := r.X.Type().Underlying().(*types.Map); isMap {
+					return r
+				}
 			}
 		}
 	}
@@ -221,9 +237,11 @@ func (fr *Frame) loopWrites(li *loopInfo) (cells map[ssa.Value]bool, heaps map[s
 				}
 			case *ssa.Range:
 				cells[rangeKey{in}] = true
+				cells[rangeCountKey{rangeKey{in}}] = true
 			case *ssa.Next:
 				if r, ok := in.Iter.(*ssa.Range); ok {
 					cells[rangeKey{r}] = true
+					cells[rangeCountKey{rangeKey{r}}] = true
 				}
 			case *ssa.Defer:
 				cells[deferKey{in}] = true
@@ -257,9 +275,26 @@ func (fr *Frame) loopWrites(li *loopInfo) (cells map[ssa.Value]bool, heaps map[s
 						}
 					}
 				}
+				if fr.top && fr.contract != nil {
+					// ghosts assigned by "at call ... set" clauses of the
+					// verified function change in the loops that contain a
+					// matching call (any ordinal)
+					if name := fr.staticCalleeName(&in.Call); name != "" {
+						for _, cs := range fr.contract.CallSites {
+							if cs.Clause.Kind == "callset" && calleeMatches(cs.Callee, name) {
+								if g := vc.specs.ghost(cs.Target); g != nil && !g.IsMap {
+									heaps[g.heapName()] = true
+								}
+							}
+						}
+					}
+				}
 				e := vc.callEffects(fr, &in.Call)
 				if e.top {
 					top = true
+					if os.Getenv("GOVC_DEBUG_TOP") != "" {
+						vc.warn("loop %d: call %s has unbounded effect (%s)", li.ordinal, in.Call.Value.String(), e.why)
+					}
 				}
 				for h := range e.heaps {
 					heaps[h] = true
@@ -296,6 +331,26 @@ func (fr *Frame) chanGhostWrites(heaps map[string]bool, names ...string) {
 			heaps[g.heapName()] = true
 		}
 	}
+}
+
+// staticCalleeName names the callee of a call the way callInner does.
+func (fr *Frame) staticCalleeName(c *ssa.CallCommon) string {
+	if _, ok := c.Value.(*ssa.Builtin); ok {
+		return ""
+	}
+	if c.IsInvoke() {
+		return fr.vc.specs.ifaceName(c)
+	}
+	var callee *ssa.Function
+	if ci, ok := fr.closures[c.Value]; ok {
+		callee = ci.fn
+	} else {
+		callee = c.StaticCallee()
+	}
+	if callee != nil {
+		return funcName(callee)
+	}
+	return fieldFuncName(c.Value)
 }
 
 // closureCellWrites lists the outer cells a closure body stores to.
@@ -393,6 +448,15 @@ func (vc *VC) zeroInitHeaps(elem types.Type) []string {
 	return []string{ptrHeapName(elem)}
 }
 
+// ownWatermark is the watermark below which objects were not allocated by
+// the function of this frame: its entry watermark.
+func (fr *Frame) ownWatermark(pre *State) Term {
+	if fr.entry != nil && fr.entry.wm.S != "" {
+		return fr.entry.wm
+	}
+	return pre.wm
+}
+
 // enterLoop cuts the loop at its header: invariant on entry, havoc of the
 // loop's write set, invariant assumed.
 func (fr *Frame) enterLoop(li *loopInfo, pre *State, pc Term) *State {
@@ -404,14 +468,14 @@ func (fr *Frame) enterLoop(li *loopInfo, pre *State, pc Term) *State {
 	if li.spec != nil {
 		env := fr.specEnv(pre, pc)
 		env.pre = li.pre
-		fr.curRangeIdx = li.rangeIndexAlloc()
+		fr.curRangeIdx, fr.curMapRange = li.rangeIndexAlloc(), li.mapRange()
 		for _, inv := range li.spec.Invariants {
 			if strings.Contains(inv.Src, "prev(") {
 				continue // transition invariant: checked at back edges only
 			}
 			vc.obligeClause("inv-entry", inv.Label, site+":"+labelOr(inv.Label, "inv"), pc, env, inv)
 		}
-		fr.curRangeIdx = nil
+		fr.curRangeIdx, fr.curMapRange = nil, nil
 	}
 	cells, heaps, top, allocs := fr.loopWrites(li)
 	st := pre.clone()
@@ -463,8 +527,8 @@ func (fr *Frame) enterLoop(li *loopInfo, pre *State, pc Term) *State {
 		}
 		sort.Strings(hn)
 		for _, h := range hn {
-			if vc.specs.isPrivateHeap(h) || vc.specs.isImmutableHeap(h) {
-				vc.havocHeapKeepOld(st, pre, h, pc)
+			if vc.specs.isPrivateHeap(h) || vc.specs.isImmutableHeap(h) || vc.specs.isSetGhostHeap(h) {
+				vc.havocHeapKeepOldBelow(st, pre, h, pc, fr.ownWatermark(pre))
 			} else if isChanGhostHeap(h) {
 				// channel operations executed by the loop body itself
 				vc.heap(st, h, vc.specs.ghost(strings.TrimSuffix(strings.TrimPrefix(h, "|GH:"), "|")).sort())
@@ -508,7 +572,7 @@ func (fr *Frame) enterLoop(li *loopInfo, pre *State, pc Term) *State {
 			}
 		} else {
 			for _, h := range hn {
-				vc.havocHeapKeepOld(st, pre, h, pc)
+				vc.havocHeapKeepOldBelow(st, pre, h, pc, fr.ownWatermark(pre))
 			}
 		}
 	}
@@ -516,14 +580,14 @@ func (fr *Frame) enterLoop(li *loopInfo, pre *State, pc Term) *State {
 	if li.spec != nil {
 		env := fr.specEnv(st, pc)
 		env.pre = li.pre
-		fr.curRangeIdx = li.rangeIndexAlloc()
+		fr.curRangeIdx, fr.curMapRange = li.rangeIndexAlloc(), li.mapRange()
 		for _, inv := range li.spec.Invariants {
 			if strings.Contains(inv.Src, "prev(") {
 				continue
 			}
 			vc.assumeClause(pc, env, inv)
 		}
-		fr.curRangeIdx = nil
+		fr.curRangeIdx, fr.curMapRange = nil, nil
 	}
 	vc.cover(site+":body", pc)
 	return st
@@ -540,11 +604,11 @@ func (fr *Frame) backEdge(li *loopInfo, st *State, guard Term) {
 	env := fr.specEnv(st, guard)
 	env.pre = li.pre
 	env.prev = li.hdr
-	fr.curRangeIdx = li.rangeIndexAlloc()
+	fr.curRangeIdx, fr.curMapRange = li.rangeIndexAlloc(), li.mapRange()
 	for _, inv := range li.spec.Invariants {
 		vc.obligeClause("inv-step", inv.Label, site+":"+labelOr(inv.Label, "inv"), guard, env, inv)
 	}
-	fr.curRangeIdx = nil
+	fr.curRangeIdx, fr.curMapRange = nil, nil
 	if li.spec.HasMod && !li.modTop {
 		for _, h := range li.modHeaps {
 			if vc.heapInfo[h] == nil {
@@ -593,7 +657,7 @@ type region struct {
 	lo, hi Term // absolute element index range when !whole and isElem
 	isElem   bool
 	global   bool
-	ghostAll bool // the whole ghost map
+	ghostAll bool // the whole ghost map, or a field of every object of a type ("T.f")
 	sort     Sort // sort of the heap, when the region's type is known
 }
 
@@ -611,6 +675,27 @@ func (vc *VC) evalRegions(env *Env, locs []Expr) ([]region, error) {
 							out = append(out, region{heap: globalName(obj.Pkg().Path(), obj.Name()), global: true})
 							continue
 						}
+					}
+				}
+			}
+			if id, ok := x.X.(*EIdent); ok && env.pkg != nil && !env.isVariable(id.Name) {
+				// "T.f": field f of every object of the struct type T
+				if tn, ok := env.pkg.Scope().Lookup(id.Name).(*types.TypeName); ok {
+					if st, isStruct := tn.Type().Underlying().(*types.Struct); isStruct {
+						found := false
+						for i := 0; i < st.NumFields(); i++ {
+							if st.Field(i).Name() == x.Name {
+								found = true
+								hn := fieldHeapName(tn.Type(), x.Name)
+								vc.heap(env.st, hn, arraySort(SInt, vc.sortOf(st.Field(i).Type())))
+								vc.noteHeapType(hn, st.Field(i).Type(), "field")
+								out = append(out, region{heap: hn, whole: true, ghostAll: true})
+							}
+						}
+						if !found {
+							return nil, fmt.Errorf("modifies %s: type %s has no field %s", exprString(l), id.Name, x.Name)
+						}
+						continue
 					}
 				}
 			}
@@ -789,6 +874,11 @@ func (vc *VC) frameFormula(cur, was Term, heap string, regs []region, wm Term) T
 		}
 		if r.isElem && !r.whole {
 			partial = append(partial, r)
+			continue
+		}
+		if r.isElem {
+			// the elements of a nil slice (backing array 0): no location at all
+			excl = append(excl, or(eq(r.ref, tZero), not(eq(Term{"fr", SInt}, r.ref))))
 			continue
 		}
 		excl = append(excl, not(eq(Term{"fr", SInt}, r.ref)))
